@@ -98,6 +98,15 @@ int main(int argc, char** argv)
 			}
 			T.emit({{"e", "Round"}, {"m", m}, {"d", d}, {"ulp", worst}, {"odd", odd}});
 		}
+		else if(k == "roundtie")
+		{
+			long m = c["m"], r = c["r"];
+			int d	 = c["d"];
+			double x = (double)m / 10.0;	 // I + 0.5: exact in binary
+			intent("Round tie");
+			double y = Round(x, (unsigned)d), ym = Round(-x, (unsigned)d);
+			T.emit({{"e", "Round"}, {"m", m}, {"d", d}, {"ulp", ulpdist(y, (double)r)}, {"odd", bits(ym) == bits(-y)}});
+		}
 		else if(k == "table")
 		{
 			double x = class_value(c["x"]), y = class_value(c["y"]);
